@@ -98,7 +98,26 @@ Theorem lifecycle_teardown_complete :
 Proof. exact (teardown_complete_sw _ _ eq_refl eq_refl). Qed.
 Print Assumptions lifecycle_teardown_complete.
 
-(* non-vacuity of the hypotheses of the two theorems above *)
+(* the machine refines the specification `sp_run` (the oracle the check evaluates next to the real
+   library): along every history that does not misuse the interface (no use after delete) and
+   keeps its stop windows clean, every object the specification demands to be finalised by now —
+   explicitly deleted, reached from a deleted object through owning Boxes, or managed at
+   teardown — has been finalised exactly once and released exactly once *)
+Theorem lifecycle_refines_spec :
+  forall (h : list ev) (x : nat),
+    bad (run gc_rem_pending_finalises gc_sweep_nulls_first h) = false ->
+    no_alloc_or_del_in_stop_window gc_rem_pending_finalises gc_sweep_nulls_first h = true ->
+    In x (s_must (sp_run h)) ->
+    fin_count (run gc_rem_pending_finalises gc_sweep_nulls_first h) x = 1 /\
+    free_count (run gc_rem_pending_finalises gc_sweep_nulls_first h) x = 1.
+Proof. exact (refines_spec_sw _ _ eq_refl eq_refl). Qed.
+Print Assumptions lifecycle_refines_spec.
+
+Example lifecycle_spec_inhabited :
+  In 5 (s_must (sp_run sample_history)) /\ s_bad (sp_run sample_history) = false.
+Proof. exact sample_spec_must. Qed.
+
+(* non-vacuity of the hypotheses of the theorems above *)
 Example lifecycle_hypotheses_inhabited :
   let s := run true true sample_history in
   no_alloc_or_del_in_stop_window true true sample_history = true /\
